@@ -216,6 +216,7 @@ void vf_case(vf::Ctx& c) {
         int lvl = ps.get(ZSTD_c_compressionLevel, 3), strat = ps.get(ZSTD_c_strategy, 0);
         x = gen::gen_content(t, (lvl >= 16 || strat >= 7) ? (100u << 10) : (300u << 10));
         if (dict.size() > 300 && x.size() > 600) memcpy(&x[t.range(0, x.size() - 300)], &dict[dict.size() - 280], 280);
+        if (t.chance(30) && gen::continue_dict_tail(t, dict, x)) c.label("content_continues_dictionary_tail");
         size_t r = ZSTD_CCtx_loadDictionary(k.c, dict.data(), dict.size());
         if (ZSTD_isError(r)) c.discard("dict_refused");
         frame.resize(ZSTD_compressBound(x.size()));
